@@ -1263,7 +1263,7 @@ _pattern.define(
         | brackets(many(_pattern | unpack("iterable")))
         | in_tuple(many(_pattern | unpack("iterable")))
         | pexpr(keepsym("."), many(SYM))
-        | pexpr(keepsym("|"), many(_pattern))
+        | pexpr(keepsym("|"), times(2, Inf, _pattern))
         | braces(many(LITERAL + _pattern), maybe(pvalue("unpack-mapping", SYM)))
         | pexpr(
             pexpr(keepsym("."), oneplus(SYM))
